@@ -334,6 +334,8 @@ def _norm_index(i, n):
 def slice_(t, lo, hi):
     """t[lo:hi]; lo/hi are terms (const int or const None or symbolic)."""
     n = length_of(t)
+    if lo == NONE:
+        lo = const(0)
     if is_const(lo) and is_const(hi) and (lo[1] is None or isinstance(lo[1], int)) \
             and (hi[1] is None or isinstance(hi[1], int)):
         a, b = lo[1], hi[1]
@@ -764,6 +766,10 @@ def truth(a):
     n = length_of(a)
     if n is not None and t in ('bytes', 'str'):
         return const(n > 0)
+    if is_op(a, 'CAT') and any(is_const(x) and len(x[1]) > 0 for x in a[2:]):
+        return TRUE
+    if is_op(a, 'STR') and type_of(a[2]) == 'int':
+        return TRUE
     if t == 'none':
         return FALSE
     return ('op', 'BOOL', a)
